@@ -75,9 +75,10 @@ PROPS = {
              "generated domain.",
              "trusts SHA3 and the harness serializer (cross-checked with the Java SDK in /repo/sdk); JSON numbers/booleans and member names with special characters are "
              "outside the generated domain", "DESIGN §6 (C12)"),
-    "C13": P("hsvc", "rapid-generated keys, hashes and transactions with 16 signature variants, judged by an independent math/big secp256k1 recovery over the independent tx id",
+    "C13": P("hsvc", "rapid-generated keys, hashes and transactions with 17 signature variants (incl. the just-verified genuine signature replayed on a sibling transaction), judged by an independent math/big secp256k1 recovery over the independent tx id",
              "Acceptance implies the exact signature bytes recover the sender's address over the reference id; genuine signatures are always accepted; malformed, "
-             "foreign-key and foreign-id signatures are rejected on both the JSON and the stored-binary path. Exploration.",
+             "foreign-key, foreign-id and replayed signatures are rejected on both the JSON and the stored-binary path; the genuine transaction is always verified "
+             "first in the same process, so verification state carried between transactions is exercised. Exploration.",
              "the ECDSA malleable twin and recovery bytes 4..7 are not decided; trusts SHA3", "DESIGN §6 (C13)"),
     "C14": P("hsvc", "rapid state-machine histories with a map model, retained snapshots and a canonical-rebuild hash reference",
              "After every operation all retained snapshots, the live state and the state hash agree with the model, and the hash agrees with a fresh canonical rebuild; "
@@ -174,7 +175,8 @@ PROPS = {
              "(unrecoverable, 64-byte, duplicated, foreign, wrong-target signatures) panics. Exploration; only-if direction.",
              "secp256k1 library trusted; BTP proofs empty; the fast-sync processBlock path is exercised by the C01 simulator", "DESIGN §4 (C05)"),
     "C06": P("hcons", "attribute-mutated message pairs against a reference predicate, at IsConflictWith (both orders), dsmLog and DoubleSignReport PreValidate",
-             "No explored non-conflict (different signer, height, round, type, network, or identical content) is ever claimed or accepted as evidence. "
+             "No explored non-conflict (different signer, height, round, type, network, identical content, or two copies of one signed vote that differ only in the parts "
+             "the signature does not cover) is ever claimed or accepted as evidence. "
              "Exploration; only-if direction.",
              "stub world context for PreValidate; the DSR contract handler level is not covered", "DESIGN §4 (C06)"),
     "C07": P("hblock", "rapid: two real block managers, chosen commit-vote timestamps, single/multi-field mutations with re-derived hashes, reference-median "
